@@ -16,8 +16,12 @@ def write(pid, tier, seed, coverage, assumptions, wall_s, violations, level="exp
         "wall_s": round(float(wall_s), 2),
         "violations": int(violations),
     }
-    os.makedirs(os.path.join(VERIF, "evidence"), exist_ok=True)
-    p = os.path.join(VERIF, "evidence", pid + ".json")
+    # a run against a scratch copy of the repository (DV_REPO: seeded regressions, mutants) must not replace the evidence of /repo
+    edir = os.path.join(VERIF, "evidence")
+    if os.environ.get("DV_REPO", "/repo") != "/repo":
+        edir = os.path.join(VERIF, ".build", "evidence-scratch")
+    os.makedirs(edir, exist_ok=True)
+    p = os.path.join(edir, pid + ".json")
     tmp = p + ".tmp"
     with open(tmp, "w") as f:
         json.dump(ev, f, indent=1, sort_keys=True, default=str)
